@@ -26,7 +26,16 @@ ListGrid == [kind : {"KS"}, items : UpTo2({<<29, 32>>, <<23, 65>>, <<4588, 0>>, 
 \* with or without a renegotiation_info extension next to it), TLS_FALLBACK_SCSV 0x5600, both, a GREASE value, a duplicate.
 Members == {"suites", "sni", "ocsp", "groups", "points", "ticket", "sigs", "sigscert", "reneg", "ems", "alpn", "sct", "versions",
             "cookie", "shares", "pskmodes", "earlydata", "quic", "sid", "psk"}
-Vals(m) == CASE m = "suites" -> {"small", "scsv", "fallback", "both", "grease", "dup"}
+\* server_name values: a DNS name, IP literals (which a client would not normally send but the codec carries: RFC 6066
+\* only says "literal IPv4 and IPv6 addresses are not permitted" to senders), a zoned / bracketed literal, a 253-byte name
+SNIName(v) == CASE v = "ipv4" -> <<49, 57, 50, 46, 48, 46, 50, 46, 55>>
+                [] v = "ipv6" -> <<50, 48, 48, 49, 58, 100, 98, 56, 58, 58, 49>>
+                [] v = "bracketed" -> <<91, 50, 48, 48, 49, 58, 100, 98, 56, 58, 58, 49, 93>>
+                [] v = "zoned" -> <<102, 101, 56, 48, 58, 58, 49, 37, 101, 116, 104, 48>>
+                [] v = "long" -> [i \in 1..253 |-> IF i % 64 = 0 THEN 46 ELSE 97 + (i % 26)]
+                [] OTHER -> <<97, 46, 101, 120, 97, 109, 112, 108, 101>>
+Vals(m) == CASE m = "sni" -> {"absent", "small", "ipv4", "ipv6", "bracketed", "zoned", "long"}
+             [] m = "suites" -> {"small", "scsv", "fallback", "both", "grease", "dup"}
              [] m = "shares" -> {"absent", "small", "empty", "special"}
              [] m \in {"ticket", "reneg", "quic"} -> {"absent", "small", "empty"}
              [] m \in {"groups", "sigs", "versions"} -> {"absent", "small", "special"}
@@ -40,7 +49,7 @@ SuiteList(v) == CASE v = "scsv" -> <<4865, 49199, 47, 255>>
 Seq32(k) == [i \in 1..32 |-> (i * 7 + k) % 256]
 ExtOf(m, v) ==
   IF v = "absent" THEN <<>> ELSE
-  CASE m = "sni" -> Ext(0, Vec16(<<0>> \o Vec16(<<97, 46, 101, 120, 97, 109, 112, 108, 101>>)))
+  CASE m = "sni" -> Ext(0, Vec16(<<0>> \o Vec16(SNIName(v))))
     [] m = "ocsp" -> Ext(5, <<1, 0, 0, 0, 0>>)
     [] m = "groups" -> Ext(10, Vec16(U16List(IF v = "special" THEN <<2570, 29, 23, 29>> ELSE <<29, 23>>)))
     [] m = "points" -> Ext(11, Vec8(<<0>>))
